@@ -52,6 +52,11 @@ def gen_temporal(rng, n, tier):
         if form == 'number':
             dur = ts[-1] - ts[0]
             case['delta'] = rng.choice([1, 2, 0.5, 0.25, 5, dur, dur / 2.0, dur + 1, 3])
+            if rng.random() < 0.45:               # steps that are not dyadic, with and without a sub-millisecond part (the request is the float's exact value)
+                case['delta'] = rng.choice([1 / 3, 0.4375, 2.01, 4.02, 1.001, 0.7, 0.3, 1.1, 0.0625, 2.03])
+                t0 = F(ts[0]) + F(ms[0], 1000); t1 = F(ts[-1]) + F(ms[-1], 1000); d = F(case['delta']); kk = (t1 - t0) / d
+                if abs(kk - round(kk)) * d < F(1, 10 ** 6):
+                    case['delta'] = 1            # the last request would fall within rounding of the last fix: which side it lands on is not the property
         else:
             m = rng.randint(0, 9)
             pool = [(t, mm) for t, mm in zip(ts, ms)]        # instants equal to fixes
